@@ -42,6 +42,14 @@ func (u *eventDispatcher) dispatchLoop(ctx context.Context) {
 	}
 }
 
+// wake wakes the dispatch loop so that it notices a cancelled context. The lock is taken so that
+// the wake-up cannot fall between the loop's context check and its Wait.
+func (u *eventDispatcher) wake() {
+	u.cond.L.Lock()
+	u.cond.Broadcast()
+	u.cond.L.Unlock()
+}
+
 func (u *eventDispatcher) addHandler(f func()) {
 	u.cond.L.Lock()
 	u.handler = append(u.handler, f)
